@@ -218,7 +218,7 @@ def _drain_checked(xknx, what):
     return n
 
 
-@standin("C11", cases=_type_cases, kind="enum-native", exhaustive=False, bound="every concrete datapoint type (230) through group_value_write and group_value_response, every concrete RemoteValue class (with value types / ranges / modes / payload lengths where the constructor asks for one) through set(), and Light.set_color / set_hs_color with individual colour addresses: a fixed battery of 53 values of every Python kind (integers around every octet/word boundary, floats incl. integral ones, nan, infinities, bool, None, str, bytes, lists, tuples, dicts, object()) plus, for structured types, the decoded all-zero value with each field replaced by 13 values and its dict form with fields replaced / removed; a call either raises ConversionError with nothing queued or queues telegrams that serialize into a cEMI frame")
+@standin("C11", cases=_type_cases, kind="enum-native", exhaustive=False, bound="every concrete datapoint type (230) through group_value_write and group_value_response, every concrete RemoteValue class (with value types / ranges / modes / payload lengths where the constructor asks for one) through set(), and the multi-telegram device setters Light.set_color / set_hs_color (individual colour addresses) and Fan.turn_on(speed) (switch + speed address): a fixed battery of 53 values of every Python kind (integers around every octet/word boundary, floats incl. integral ones, nan, infinities, bool, None, str, bytes, lists, tuples, dicts, object()) plus, for structured types, the decoded all-zero value with each field replaced by 13 values and its dict form with fields replaced / removed; a call either raises ConversionError with nothing queued or queues telegrams that serialize into a cEMI frame")
 def every_type_refuses_at_the_call_or_queues_a_serializable_telegram(kind, i):
     import asyncio
 
@@ -304,6 +304,16 @@ def every_type_refuses_at_the_call_or_queues_a_serializable_telegram(kind, i):
                                 assert xknx.telegrams.empty(), ("Light.set_color", (r, g, b), w, "refused but queued")
                                 continue
                             assert _drain_checked(xknx, ("Light.set_color", (r, g, b), w)) == (3 if w is None else 4)
+            from xknx.devices import Fan
+
+            fan = Fan(xknx, "f", group_address_switch="1/2/1", group_address_speed="1/2/2")
+            for speed in (0, 50, 100, 101, 300, -1, None, "x", float("nan")):
+                try:
+                    await fan.turn_on(speed)
+                except ConversionError:
+                    assert xknx.telegrams.empty(), ("Fan.turn_on", speed, "refused but queued")
+                    continue
+                assert _drain_checked(xknx, ("Fan.turn_on", speed)) == (1 if speed is None else 2)
             for h in (0, 360, 361, -1, None, "x", float("nan")):
                 for s_ in (0, 100, 101, -1, None, "x", float("inf")):
                     try:
